@@ -35,7 +35,15 @@ def run_gqr(B, opt, L, A, N, s, reuse=False):
 
 
 def table_from_steps(steps, n):
-    """norm of every sensor at every step as exact scaled integers (0 for sensors already ranked)"""
+    """norm of every sensor at every step as exact scaled integers (0 for sensors already ranked).  The table stops before the
+    first step whose norms are not finite (beyond the first n_sensors steps every candidate may be masked; the loop then
+    'reflects' with an unnormalised vector and the trailing block blows up - no property speaks about those steps)"""
+    good = []
+    for st in steps:
+        if not all(np.isfinite(v) for v in st["dlens"]):
+            break
+        good.append(st)
+    steps = good
     vals = []
     for st in steps:
         vals += st["dlens"]
@@ -51,7 +59,38 @@ def table_from_steps(steps, n):
     return table
 
 
-def gen_region_case(rng, nmax=9, mmax=5, feasible_only=True):
+def exact_residuals(B, picks):
+    """squared residual norm of every sensor row before each pick, in exact rational arithmetic (pivoted Cholesky on the Gram
+    matrix, a zero pivot removes nothing): independent of whatever norms the implementation's loop works with"""
+    from fractions import Fraction as F
+    n = B.shape[0]
+    Bq = [[F(float(v)) for v in row] for row in B]
+    G = [[sum(x * y for x, y in zip(Bq[a], Bq[b])) for b in range(n)] for a in range(n)]
+    out = []
+    for p in picks:
+        out.append([G[a][a] for a in range(n)])
+        if G[p][p] != 0:
+            gp = G[p][p]
+            col = [G[a][p] for a in range(n)]
+            G = [[G[a][b] - col[a] * col[b] / gp for b in range(n)] for a in range(n)]
+    return out
+
+
+def degenerate_steps(B, piv, N, rel=1e-9):
+    """does some not-yet-ranked sensor have an exactly zero / numerically negligible (relative to its own row norm) residual
+    at one of the first N steps?  (the counting theorems need positive residuals)"""
+    res = exact_residuals(B, piv[:N])
+    zero = tiny = False
+    for j, row in enumerate(res):
+        for c in piv[j:]:
+            if row[c] == 0:
+                zero = True
+            elif float(row[c]) < (rel ** 2) * float(res[0][c]):
+                tiny = True
+    return zero, tiny, res
+
+
+def gen_region_case(rng, nmax=9, mmax=5, feasible_only=True, graded=0.0):
     n = int(rng.integers(3, nmax + 1))
     m = int(rng.integers(2, min(n, mmax) + 1))
     B = rng.integers(-40, 41, size=(n, m)) / 8.0
@@ -70,4 +109,8 @@ def gen_region_case(rng, nmax=9, mmax=5, feasible_only=True):
             tries += 1
         if not (s <= len(L) and N - s <= n - len(L)):
             L, s = [], 0
+    if L and rng.random() < graded:
+        # badly scaled data: the region rows live on a scale 2^27 .. 2^32 times larger (exact in doubles)
+        B = B.copy()
+        B[L] *= float(2 ** int(rng.integers(27, 33)))
     return B, n, m, N, L, s
